@@ -413,6 +413,11 @@ def project(problem):
     for tc in problem.trajectory_constraints:
         if tc.is_always():
             continue
+        if tc.is_bool_constant():
+            # add_trajectory_constraint stores a simplified constraint: Always(false) / Sometime(false) become the
+            # constant false.  Over a (non-empty) state sequence a constant constraint is the invariant with that value.
+            P["invariants"].append(p_expr(tc))
+            continue
         if tc.is_and():
             for a in tc.args:
                 if not a.is_always():
